@@ -527,3 +527,39 @@ def gen_publish():
 
 
 MODULES["Publish"] = gen_publish
+
+
+# ------------------------------------------------------------------ FitsTiler reuse (C17)
+def gen_fitstiler():
+    tree = parse("toasty/fits_tiler.py")
+    fn = find_def(tree, "FitsTiler.tile")
+    out = HEADER.format(src="toasty/fits_tiler.py") + "namespace Gen\nnamespace FitsTiler\n\n"
+    top = [n for n in fn.body if isinstance(n, ast.If) and ast.unparse(n.test) == "os.path.isdir(self.out_dir)"]
+    if len(top) != 1:
+        raise ExtractError("`if os.path.isdir(self.out_dir)` not found in FitsTiler.tile")
+    top = top[0]
+    if not (len(top.body) == 1 and isinstance(top.body[0], ast.If) and ast.unparse(top.body[0].test) == "override"):
+        raise ExtractError("the existing-directory branch is no longer `if override: … else: …`")
+    ov, reuse = top.body[0].body, top.body[0].orelse
+    rm = "shutil.rmtree(self.out_dir)" in ast.unparse(ast.Module(body=ov, type_ignores=[]))
+    falls = not any(isinstance(n, ast.Return) for s in ov for n in ast.walk(s))
+    rsrc = ast.unparse(ast.Module(body=reuse, type_ignores=[]))
+    returns = isinstance(reuse[-1], ast.Return)
+    restores = ("self._restore_builder_from_wtml(" in rsrc and "index_rel.wtml" in rsrc)
+    hips = "self._copy_hips_properties_to_builder()" in rsrc
+    # fresh builder before the branch; write after tiling
+    pre = ast.unparse(ast.Module(body=fn.body[:fn.body.index(top)], type_ignores=[]))
+    fresh = "self.builder = builder.Builder(pio)" in pre
+    post = ast.unparse(ast.Module(body=fn.body[fn.body.index(top) + 1:], type_ignores=[]))
+    writes = "self.builder.write_index_rel_wtml(" in post
+    tiles = all(s in post for s in ("self._tile_hips(", "self._tile_toast(", "self._tile_tan("))
+    out += f"/-- a fresh default `Builder` is created before the directory test -/\ndef fresh_builder_first : Bool := {'true' if fresh else 'false'}\n"
+    out += f"/-- `override=True` on an existing directory: the directory is removed and tiling proceeds as for a fresh one -/\ndef override_removes_and_retiles : Bool := {'true' if rm and falls else 'false'}\n"
+    out += f"/-- reuse (directory exists, no override): returns early … -/\ndef reuse_returns_early : Bool := {'true' if returns else 'false'}\n"
+    out += f"/-- … after restoring the builder from `index_rel.wtml` when that file exists (HiPS: from `properties`) -/\ndef reuse_restores_from_wtml : Bool := {'true' if restores else 'false'}\ndef reuse_restores_hips : Bool := {'true' if hips else 'false'}\n"
+    out += f"/-- the tiling paths are followed by `write_index_rel_wtml` of the same builder -/\ndef tiling_then_write : Bool := {'true' if writes and tiles else 'false'}\n"
+    out += "\nend FitsTiler\nend Gen\n"
+    return out
+
+
+MODULES["FitsTiler"] = gen_fitstiler
